@@ -59,6 +59,8 @@ def unlock(kind):
             ek = scn.exit_kind(v)
             if ek == 'raise BlockException':
                 ek = 'exception-in-with-block'
+            if ek == 'raise BlockBaseException':
+                ek = 'base-exception-in-with-block(KeyboardInterrupt,GeneratorExit,...)'
             kinds.add(ek)
             tag = '%s/p%d' % (ek, pi)
             entered = s.ghost.get('with_block') is not None
@@ -71,7 +73,7 @@ def unlock(kind):
                 if isinstance(v, E.Raise) and v.exc == 'PGPDecryptionError':
                     r.oblige(s, 'raises-only-for-wrong-passphrase[%s]' % tag, z3.Not(z3.And(*[z3.Implies(prot[c], ok[c]) for c in COMPS])))
                     r.oblige(s, 'block-not-entered-when-wrong-passphrase[%s]' % tag, z3.BoolVal(not entered))
-                elif isinstance(v, E.Raise) and v.exc != 'BlockException':
+                elif isinstance(v, E.Raise) and v.exc not in ('BlockException', 'BlockBaseException'):
                     r.oblige(s, 'no-other-exception(%s)[%s]' % (v.exc, tag), z3.BoolVal(False), v.where)
                 if entered:
                     r.oblige(s, 'block-entered-only-with-every-protected-component-open[%s]' % tag,
@@ -81,10 +83,10 @@ def unlock(kind):
                 r.oblige(s, 'nothing-unprotected-or-cleared[%s]' % tag,
                          z3.BoolVal(not any(s.ghost['cleared_' + c] or s.ghost['unprotect_called_' + c] for c in COMPS)))
                 r.oblige(s, 'block-entered[%s]' % tag, z3.BoolVal(entered))
-                if isinstance(v, E.Raise) and v.exc != 'BlockException':
+                if isinstance(v, E.Raise) and v.exc not in ('BlockException', 'BlockBaseException'):
                     r.oblige(s, 'no-exception(%s)[%s]' % (v.exc, tag), z3.BoolVal(False), v.where)
         if kind == 'protected':
-            r.oblige(st, 'cover-all-exit-kinds', z3.BoolVal({'return', 'exception-in-with-block', 'raise PGPDecryptionError'} <= kinds))
+            r.oblige(st, 'cover-all-exit-kinds', z3.BoolVal({'return', 'exception-in-with-block', 'base-exception-in-with-block(KeyboardInterrupt,GeneratorExit,...)', 'raise PGPDecryptionError'} <= kinds))
         return r.result()
     return Scenario(label, KEY + '.unlock', gen, props=('C06', 'C15', 'C16'))
 
